@@ -313,6 +313,13 @@ def c12_r2(ctx, f):
     val = ("call", "module::Module::value", (cell,))
     ok = any(cond == val and pol is True for cond, pol in g)
     wrong_pol = any(cond == val and pol is False for cond, pol in g)
+    other = [cond for cond, pol in g if cond[0] == "call" and cond[1] == "module::Module::value" and cond != val]
+    if not ok and other:
+        # positive evidence: the call IS guarded by a dark test - of another module than the one handed to the callback
+        ctx.fail(rid, fn.path + "/cell", c.where(), fn.path, "module passed to the callback",
+                 "the module whose value is tested is not the module handed to the shape callback",
+                 expected=expr_str(other[0][2][0], fn), found=expr_str(cell, fn))
+        return
     if not ok and not wrong_pol:
         # no branch on value(cell) around the call: the dark test may live in an iterator adaptor (filter) or a helper this rule
         # does not read - positive evidence only (the exact rule C12.R7 decides the clause)
@@ -354,6 +361,18 @@ def c12_r2(ctx, f):
     okx = len(xdefs) >= 1 and a1 == poly.A(("enum0", xdefs[0])) + poly.A("margin")
     plain = bool(xdefs and ydefs) and (loop_kind(fn, xdefs[0]) or (None,))[0] == "enumerate" and (loop_kind(fn, xdefs[0])[1] or (None,))[0] == "iter"
     if not plain:
+        # two index loops: the callback's coordinates are loopvar + margin and the module is qr[row var][column var]
+        ra = [a for a in a0.atoms() if isinstance(a, tuple) and a[0] == "loopvar"]
+        ca = [a for a in a1.atoms() if isinstance(a, tuple) and a[0] == "loopvar"]
+        sc = strip_refs(cell)
+        if len(ra) == 1 and len(ca) == 1 and a0 == poly.A(ra[0]) + poly.A("margin") and a1 == poly.A(ca[0]) + poly.A("margin") and \
+                sc[0] == "index" and strip_refs(sc[1])[0] == "call" and strip_refs(sc[1])[1] == "qr_row":
+            rowi = poly.normalise(strip_refs(sc[1])[2][1], ren)
+            coli = poly.normalise(sc[2], ren)
+            ctx.check(rid, rowi == poly.A(ra[0]) and coli == poly.A(ca[0]), fn.path + "/cell", c.where(), fn.path, "module passed to the callback",
+                      "the module handed to the callback is not the one at the (row, column) it is drawn at", expected="qr[row][column]",
+                      found="qr[%s][%s] drawn at row %s column %s" % (rowi.show(), coli.show(), a0.show(), a1.show()), sample="cell = qr[y][x]")
+            return
         ctx.abstain(rid, "the row/column loops of path() are not `for y in 0..size` / `for (x, cell) in qr[y].iter().enumerate()`: the "
                          "coordinates and the module handed to the callback are not read here", c.where())
         return
@@ -483,7 +502,9 @@ def c12_r3(ctx, f):
 # C12.R4 / R6 skeleton holes
 # ---------------------------------------------------------------------------
 
-def c12_r4(ctx, f):
+def c12_r4(ctx, f, image_decided=False):
+    """image_decided: the embedded image is decided end to end by C12.R9 - what to_str hands to its private image() helper, and
+    whether that part is pushed under a condition on the option, is then an internal matter"""
     rid = "C12.R4"
     ctx.rule(rid, "square viewBox and background of side size + 2*margin in the background colour; defaults")
     fn = anchor_fn(ctx, rid, f, SVGB + "::to_str")
@@ -553,7 +574,9 @@ def c12_r4(ctx, f):
             seq.append("lit:" + src["text"])
         else:
             seq.append(src["kind"])
-    ctx.check(rid, seq == ["fmt:svg", "fmt:rect", "call:path", "call:image", "lit:</svg>"], fn.path + "/document-order", where_fn(fn), fn.path,
+    seq_cmp = [x for x in seq if not (image_decided and x not in ("fmt:svg", "fmt:rect", "call:path", "lit:</svg>"))]
+    want_seq = ["fmt:svg", "fmt:rect", "call:path", "lit:</svg>"] if image_decided else ["fmt:svg", "fmt:rect", "call:path", "call:image", "lit:</svg>"]
+    ctx.check(rid, seq_cmp == want_seq, fn.path + "/document-order", where_fn(fn), fn.path,
               "document assembly", "the document is not <svg> + background + paths + image + </svg> in this order", found=seq,
               sample=" + ".join(seq))
     # every part is emitted on every path: removing its block must cut every path from entry to a return
@@ -563,12 +586,16 @@ def c12_r4(ctx, f):
         reach = fn.reachable(removed_blocks=(pc.block,))
         if any(r in reach for r in rets):
             what = src["site"].skeleton()[:40] if src["kind"] == "fmt" else src.get("callee") or src.get("text") or src["kind"]
+            if image_decided and str(what).endswith("::image"):
+                continue  # the image element is optional by nature (nothing is emitted without an image option)
             cond.append("%s (line %s)" % (what, pc.line))
     ctx.check(rid, not cond, fn.path + "/document-unconditional", where_fn(fn), fn.path, "document assembly",
               "a part of the document skeleton (head, background rectangle, paths, image, closing tag) is emitted only on some paths",
               found=cond, sample="all %d document parts are emitted on every path" % len(seq))
     # path(self, qr) and image(self, n = qr.size) are called on the same builder and symbol
     for c in fn.calls(SVGB + "::path", SVGB + "::image"):
+        if image_decided and c.name.endswith("::image"):
+            continue
         for i, a in enumerate(c.args):
             o = fn.origins(a, c.point)
             ty = a.get("ty")
